@@ -31,6 +31,14 @@ def gen_unit(rng):
     if rng.random() < 0.2:
         u["macros"]["gm"] = g.gen(rng.choice(("num", "bool", "str")), eg.Scope().macro_body())
         sc = sc.with_macro("gm", "any")
+    if rng.random() < 0.12:
+        # a --set value is computed on its own (no input, no other --set in sight), wherever it stands among the options:
+        # a reference to another --set in it is a reference to nothing
+        fb = rng.choice((7, "fb", [1, 2]))
+        u["exprvars"] = {"xv": ["(default %s %s)" % (rng.choice((":gv", "@gm", "(: \"gv\")", ":xw", ".n", "(get . \"k\")")), jm.dumps(fb)), fb]}
+        if rng.random() < 0.5:
+            u["exprvars"]["xw"] = ["(default :xv 1)", 1]
+        sc = sc.with_var("xv", "any")
     nosel = lambda s: eg.Scope(s.dot, s.parents, s.vars, s.macros, {}, False)
     base = sc
     if rng.random() < 0.35:
@@ -89,7 +97,7 @@ def gen_unit(rng):
 def to_cfg(u):
     c = pipemodel.Cfg()
     c.only_oa = u["only_oa"]
-    c.vars = u["vars"]
+    c.vars = dict(u["vars"], **{k: v[1] for k, v in u.get("exprvars", {}).items()})
     c.macros = u["macros"]
     c.split = u["split"]
     c.filter = u["filter"]
@@ -112,6 +120,8 @@ def option_groups(u, rng=None):
         G.append(["--set", "%s=%s" % (k, eg.show(("lit", v)))])
     for k, m in u["macros"].items():
         G.append(["--set", "@%s=%s" % (k, eg.show(m))])
+    for k, (text, _) in u.get("exprvars", {}).items():
+        G.append(["--set", "%s=%s" % (k, text)])
     if u["split"] is not None:
         G.append(["--split-by=" + eg.show(u["split"])])
     if u["filter"] is not None:
